@@ -4,6 +4,7 @@
   lie before, between and behind them, so ReadTOASTTable returns the same chunks as for the dense page.
 -/
 import PgVerif.Proofs.ToastRel
+import PgVerif.Proofs.ToastStats
 namespace PgVerif.Proofs.Toast
 open PgVerif PgVerif.Spec PgVerif.Spec.Toast PgVerif.Model.Toast
 
@@ -27,11 +28,11 @@ theorem lpsH_filterMap {β} (f : LP → Option β) (hf : ∀ a b c, f (.other a 
     simp only [List.filterMap_cons, List.filterMap_nil]
     cases f (.normal i) <;> simp
 
-theorem zipIdx_map_fst {α β} (g : α → β) (h : Nat → α → β) (hg : ∀ a i, h i a = g a) (es : List α) (k : Nat) :
-    (es.zipIdx k).map (fun p => h p.2 p.1) = es.map g := by
+theorem zipIdx_map_fst {α β} (g : α → β) (es : List α) (k : Nat) :
+    (es.zipIdx k).map (fun p => g p.1) = es.map g := by
   induction es generalizing k with
   | nil => rfl
-  | cons a es ih => simp [List.zipIdx_cons, hg, ih]
+  | cons a es ih => simp [List.zipIdx_cons, ih]
 
 /-- the slots of a page with holes: entry `i`'s tuple behind the storage of the holes in front of it -/
 def slotsH (es : List Entry) (hs : Holes) : List (Bytes × Tuple) := es.zipIdx.map fun (e, i) => (junkAt hs i, e.tuple)
@@ -41,7 +42,7 @@ theorem slotsH_length (es : List Entry) (hs : Holes) : (slotsH es hs).length = e
 theorem slotsH_snd (es : List Entry) (hs : Holes) : (slotsH es hs).map (·.2) = es.map Entry.tuple := by
   unfold slotsH
   rw [List.map_map]
-  exact zipIdx_map_fst Entry.tuple (fun _ e => e.tuple) (fun _ _ => rfl) es 0
+  exact zipIdx_map_fst Entry.tuple es 0
 
 theorem toastPageH_slots (es : List Entry) (hs : Holes) : (toastPageH es hs).slots = slotsH es hs := rfl
 
@@ -119,5 +120,24 @@ theorem readTOASTTable_layoutH (lay : Layout) (holes : List Holes) (h : LayoutHW
     obtain ⟨i, hlt, hget⟩ := List.getElem_of_mem hpg
     exact ⟨i, by rw [List.mem_zipIdx_iff_getElem?]; simp [hget, hlt]⟩
   exact ((h (pg, i) hi).2 e hem).1
+
+/-- GetTOASTVerboseInfo on a relation with holes, for every iteration order of the value map -/
+theorem verboseInfo_layoutH_with (π : GroupOrder) (hπ : ∀ l, (π l).Perm l) (relid : Nat) (lay : Layout) (holes : List Holes)
+    (h : LayoutHWF lay holes) :
+    (lay.liveRows = [] → getTOASTVerboseInfoWith π relid (encToastRelH lay holes) = .ok none) ∧
+    (lay.liveRows ≠ [] → ∃ i, getTOASTVerboseInfoWith π relid (encToastRelH lay holes) = .ok (some i) ∧
+      StatsOK relid lay.liveRows i) := by
+  constructor
+  · intro he
+    unfold getTOASTVerboseInfoWith
+    rw [readTOASTTable_layoutH lay holes h, he]
+    rfl
+  · intro hne
+    refine ⟨_, ?_, verboseInfo_rows_with π hπ relid lay.liveRows hne⟩
+    unfold getTOASTVerboseInfoWith
+    rw [readTOASTTable_layoutH lay holes h]
+    simp only [ok_bind]
+    rw [if_neg (by simp; exact hne)]
+    rfl
 
 end PgVerif.Proofs.Toast
